@@ -148,6 +148,8 @@ class StlAstParserVisitor(LtlAstParserVisitor, StlParserVisitor):
         # both bounds as durations (same unit resolution as the interpreters)
         b_unit = begin_unit if begin_unit else (end_unit if end_unit else self.unit)
         e_unit = end_unit if end_unit else b_unit
+        if begin < 0:
+            raise RTAMTException('The lower bound of the interval [{0}{1},{2}{3}] is negative'.format(begin, begin_unit, end, end_unit))
         if begin * self.U[b_unit] > end * self.U[e_unit]:
             raise RTAMTException('The lower bound of the interval [{0}{1},{2}{3}] exceeds its upper bound'.format(begin, begin_unit, end, end_unit))
 
